@@ -291,9 +291,8 @@ impl FromStr for Pinned {
         let s = &s[prefix_plus.len()..];
 
         // Parse the `repo` URL.
-        let repo_str = s.split('?').next().ok_or(PinnedParseError::Url)?;
+        let (repo_str, s) = s.split_once('?').ok_or(PinnedParseError::Reference)?;
         let repo = Url::from_str(repo_str).map_err(|_| PinnedParseError::Url)?;
-        let s = &s[repo_str.len() + "?".len()..];
 
         // Parse the git reference and commit hash. This can be any of either:
         // - `branch=<branch-name>#<commit-hash>`
